@@ -23,13 +23,17 @@ CHECKS = {
  "C02": ("exploration",
          "Differential execution of seeded random fixed-point/integer "
          "statements (kernel + reference machine) against Fraction "
-         "arithmetic with set-valued floor/trunc dropping, plus a "
+         "arithmetic with set-valued floor/trunc dropping, with-blocks "
+         "comparing fixed-point places with decimal / integer constants "
+         "and other places at any magnitude the 64-bit representation "
+         "holds, plus a "
          "Python-side leg for decimal writes/reads of x variables; strata "
          "(operator x destination kind) are counted, an empty stratum is "
          "inconclusive.",
          "trusts the kernel's execution; strictness is decided "
-         "conservatively (every raw value x 10^10 must fit the width), so "
-         "large magnitudes are unchecked",
+         "conservatively below arithmetic nodes (every raw value x 10^10 "
+         "must fit the width); plain comparisons only need the once-scaled "
+         "operands to fit",
          "runtime differential monitoring against a rational reference "
          "model", "4 C02"),
  "C03": ("exploration",
@@ -60,7 +64,9 @@ CHECKS = {
          "event monitor in the reference VM", "4 C07"),
  "C06": ("exploration",
          "The single in-place add statement is compiled by the real "
-         "generator for every 4/8-byte format x memory kind x amount kind; "
+         "generator for every 4/8-byte format x memory kind x amount kind "
+         "(+= and -= of constants, registers, expressions, 4- and 8-byte "
+         "variables, 32-bit register views, fixed-point constants); "
          "two instances are run over ALL interleavings of the statement's "
          "instructions (three over all or a seeded sample) in the reference "
          "machine and the conservation law final = initial + sum(amounts) is "
@@ -78,8 +84,9 @@ CHECKS = {
          "asserts that the byte ranges of the descriptors attribute lookup "
          "resolves are pairwise disjoint and inside the map; then values "
          "written from Python are copied by the loaded program in the kernel "
-         "and read back from Python; per-CPU leg with one value per possible "
-         "CPU and counter sums.",
+         "and read back from Python; per-CPU leg: random declarations incl. "
+         "x, the process pinned to chosen CPUs in turn with CPU-specific "
+         "inputs, every CPU's entry of every variable compared.",
          "trusts the kernel; multi-element formats are exercised from the "
          "Python side only (the program side addresses their first element)",
          "structural invariant monitor at a hook-free observation point + "
@@ -102,7 +109,8 @@ CHECKS = {
          "key_size, value >= value_size (per-CPU: round_up(8) x possible "
          "CPUs), next_key >= key_size, with map geometry from the "
          "intercepted MAP_CREATE calls; workload = C09's random API "
-         "sequences + per-CPU reads. Thorough tier adds valgrind memcheck "
+         "sequences + per-CPU maps created and read under full and "
+         "narrowed CPU affinity masks. Thorough tier adds valgrind memcheck "
          "as a second, independent sanitizer.",
          "only calls reachable from the workload are seen; unknown pointer "
          "provenance is counted and must stay below 1%",
@@ -200,8 +208,11 @@ CHECKS = {
          "through the real Terminal.map_fmmu context manager over the "
          "simulated bus; after every step the slot table and the FMMU "
          "register writes seen by the terminal model are checked against "
-         "the invariant live mappings <-> distinct FMMUs.",
-         "exhaustive within the bound only",
+         "the invariant live mappings <-> distinct FMMUs; plus seeded "
+         "histories of 2-4 concurrent tasks opening, holding and closing "
+         "mappings of one terminal at random offsets.",
+         "sequential part exhaustive within the bound only; concurrent "
+         "part sampled",
          "invariant assertion at a hook (slot table + register writes at "
          "the simulated terminal) after every operation", "4 C20"),
  "C16": ("exploration",
@@ -209,8 +220,10 @@ CHECKS = {
          "loop against an ESC mailbox model and an ETG.1000.6 SDO server "
          "(expedited, normal, segmented, complete access, toggle and size "
          "checking) for six mailbox sizes and every value length around the "
-         "segmentation boundaries, with response latencies and unrelated "
-         "mail queued first; the server's object store, its protocol-error "
+         "segmentation boundaries, with response latencies and one to three "
+         "unrelated mails queued first, plus histories of 2-3 tasks "
+         "transferring different objects of one terminal concurrently; the "
+         "server's object store, its protocol-error "
          "log (toggle bits, message lengths vs mailbox size) and the "
          "returned bytes are compared with the value.",
          "the SDO server model is the conformance reference; at the pinned "
@@ -256,10 +269,11 @@ CHECKS = {
          "counter) at every point between the creator's O_EXCL open and its "
          "initialising write through an os proxy. Cross-process: 2-3 real "
          "processes do locked exchanges on one lock file under random "
-         "sleeps; the shared append-only log is checked the same way.",
-         "cross-process schedules are uncontrolled (OS scheduler + random "
-         "sleeps); the controlled multi-process gate scheduler of the design "
-         "was not built for this property",
+         "sleeps and injected delays around every pread/pwrite/lockf of the "
+         "lock protocol; the shared append-only log is checked the same "
+         "way.",
+         "cross-process schedules are those the OS scheduler, random sleeps "
+         "and injected delays produce (not enumerated)",
          "offline history checker over events recorded at the simulated "
          "terminal / shared log; deterministic fault point injection for "
          "the creation window", "4 C15"),
@@ -278,7 +292,8 @@ CHECKS = {
  "C18": ("exploration",
          "Seeded random masters (1-12 terminals, FMMU / direct / "
          "Aerotech-style, read-only / read-write, 1-4 slow and fast sync "
-         "groups, incl. oversized ones): after the real allocate() the "
+         "groups, incl. oversized ones and groups solved to need exactly "
+         "MAXSIZE-2 .. MAXSIZE+3 bytes): after the real allocate() the "
          "cyclic frame is parsed independently and each terminal's regions "
          "are checked for exact size, containment in the transporting "
          "datagram, disjointness, agreement of fmmu_maps with the datagram's "
@@ -334,7 +349,8 @@ CHECKS = {
  "C19": ("exploration",
          "Seeded random terminals (random PDO maps with bit and byte "
          "entries, channel Structs with byte and CoE offsets, ProcessDesc / "
-         "PacketDesc descriptors incl. size overrides) and devices linking "
+         "PacketDesc descriptors incl. format overrides and bit-number "
+         "overrides 0..7 of byte entries) and devices linking "
          "2-8 variables as reads or writes are run on both paths over the "
          "same random frame: the real slow SyncGroup with the device's "
          "Python update(), and the real FastSyncGroup program loaded into "
@@ -372,10 +388,13 @@ CHECKS = {
          "space with the ethertype of the identification datagram within a "
          "bounded number of passes, and for a registered group never three "
          "consecutive frames are sent back to the bus without running the "
-         "group program.",
-         "weaker readings chosen where the statement is ambiguous (no "
-         "re-injection for unregistered groups; superfluous frames handed "
-         "to user space do not extend the run), see DESIGN",
+         "group program; read literally (every frame the dispatcher "
+         "handles counts) the bound of two is checked on all histories "
+         "with at most two frames in flight from every value of the "
+         "counter byte, and a bound of three with three in flight.",
+         "no re-injection for unregistered groups; the literal reading is "
+         "violated by the pinned code with three frames in flight "
+         "delivered out of order (known finding), see DESIGN",
          "bounded explicit-state exploration where every transition is a "
          "real bytecode execution, with per-step runtime monitors",
          "4 C21/C22"),
@@ -384,9 +403,12 @@ CHECKS = {
          "every format (classes generated in an importable module) are "
          "pickled into a real multiprocessing 'spawn' child exactly like "
          "subprocess_run receives them; parent and child alternately write "
-         "distinct random values and read the other side's; the byte ranges "
-         "of all variables in the shared array must be pairwise disjoint.",
-         "the child runs a harness function instead of the cyclic loop; 16 "
+         "distinct random values (x variables with either sign) and read "
+         "the other side's; then the same device objects join a second "
+         "group with new devices and the exchange is repeated; the byte "
+         "ranges of all variables in the shared array must be pairwise "
+         "disjoint.",
+         "the child runs a harness function instead of the cyclic loop; 32 "
          "configurations per quick run (process spawn dominates the cost)",
          "runtime monitoring across a real process boundary (value oracle + "
          "layout invariant)", "4 C29"),
